@@ -12,6 +12,7 @@ import (
 	"strings"
 	"testing"
 
+	"github.com/junegunn/fzf/src/tui"
 	"github.com/junegunn/fzf/src/util"
 	"pgregory.net/rapid"
 	"verif.local/oracle"
@@ -343,4 +344,87 @@ func propC12TmuxRequote(t *rapid.T) {
 
 func TestVerifC12_TmuxRequote(t *testing.T) {
 	rapid.Check(t, propC12TmuxRequote)
+}
+
+// The re-launch itself: runTmux builds the command line of the fzf that runs inside the popup
+// from the arguments and the environment of this one. tmux is replaced by a stand-in that runs
+// the "sh <script>" pair it is handed as the popup command, and the fzf named by the first
+// argument by one that writes down its argument vector and the environment variables under
+// test; /bin/sh evaluates the script fzf wrote. Every argument must arrive as one word, in
+// order, between the words fzf adds on its own, and every variable with its value.
+func TestVerifC12_TmuxRelaunch(t *testing.T) {
+	work := os.Getenv("VERIF_WORK")
+	if work == "" {
+		work = os.TempDir()
+	}
+	dir, err := os.MkdirTemp(work, "c12 re'launch $x")
+	if err != nil {
+		t.Fatal(err)
+	}
+	defer os.RemoveAll(dir)
+	dump := filepath.Join(dir, "argv")
+	standInFzf := filepath.Join(dir, "fzf")
+	os.WriteFile(standInFzf, []byte("#!/bin/sh\n{ printf '%s\\0' \"$VERIF_E0\" \"$VERIF_E1\"; for a in \"$@\"; do printf '%s\\0' \"$a\"; done; } > \"$VERIF_C12_DUMP\"\n"), 0o755)
+	os.WriteFile(filepath.Join(dir, "tmux"), []byte("#!/bin/sh\nfor a in \"$@\"; do prev=$last; last=$a; done\nexec \"$prev\" \"$last\"\n"), 0o755)
+	os.Setenv("PATH", dir+string(os.PathListSeparator)+os.Getenv("PATH"))
+	os.Setenv("VERIF_C12_DUMP", dump)
+	rapid.Check(t, func(t *rapid.T) {
+		n := rapid.IntRange(0, 5).Draw(t, "nargs")
+		var user []string
+		for i := 0; i < n; i++ {
+			user = append(user, c12Text(t, "arg"))
+		}
+		env := []string{c12Text(t, "env0"), c12Text(t, "env1")}
+		os.Setenv("VERIF_E0", env[0])
+		os.Setenv("VERIF_E1", env[1])
+		opts := defaultOptions()
+		opts.Tmux = &tmuxOptions{width: sizeSpec{50, true}, height: sizeSpec{50, true}, position: posCenter}
+		opts.Tmux.border = rapid.Bool().Draw(t, "borderNative")
+		if rapid.IntRange(0, 2).Draw(t, "marginGiven") == 0 {
+			opts.Margin = [4]sizeSpec{{1, false}, {1, false}, {1, false}, {1, false}}
+		}
+		if rapid.IntRange(0, 2).Draw(t, "borderGiven") == 0 {
+			opts.BorderShape = tui.BorderRounded
+		}
+		want := []string{"--bind=ctrl-z:ignore"}
+		if opts.Tmux.border && opts.Margin == defaultMargin() {
+			want = append(want, "--margin=0,1")
+		}
+		want = append(want, user...)
+		if !opts.Tmux.border && opts.BorderShape == tui.BorderUndefined {
+			want = append(want, "--border")
+		}
+		want = append(want, "--no-tmux", "--no-height", "--no-force-tty-in", "--proxy-script")
+		// the argument vector is handed over the way main does: program name first, in one array
+		argv := make([]string, 0, n+1)
+		argv = append(argv, standInFzf)
+		argv = append(argv, user...)
+		os.Remove(dump)
+		code, err := runTmux(argv, opts)
+		if err != nil || code != ExitOk {
+			t.Fatalf("runTmux(%q): status %d, %v", argv, code, err)
+		}
+		data, err := os.ReadFile(dump)
+		if err != nil {
+			t.Fatalf("runTmux(%q): the re-launched command did not run: %v", argv, err)
+		}
+		if _, err := os.Stat("CANARY"); err == nil {
+			os.Remove("CANARY")
+			t.Fatalf("runTmux(%q) with the environment values %q: data was executed as shell syntax", argv, env)
+		}
+		got := strings.Split(strings.TrimSuffix(string(data), "\x00"), "\x00")
+		hostile := strings.ContainsAny(strings.Join(append(append([]string{}, user...), env...), ""), "'\\\n$`")
+		vstat.Case("C12/tmux-relaunch", fmt.Sprintf("%q %q %v %v", user, env, opts.Tmux.border, opts.Margin == defaultMargin()), hostile && n >= 1, fmt.Sprintf("nargs=%d", n), fmt.Sprintf("border_native=%v", opts.Tmux.border))
+		if len(got) < 2 || got[0] != env[0] || got[1] != env[1] {
+			t.Fatalf("environment values %q arrive in the popup as %q", env, got[:imin(len(got), 2)])
+		}
+		got = got[2:]
+		// the last word is the path of the script
+		if len(got) > 0 {
+			got = got[:len(got)-1]
+		}
+		if fmt.Sprintf("%q", got) != fmt.Sprintf("%q", want) {
+			t.Fatalf("fzf started with the arguments %q (tmux border-native=%v, margin given=%v, border given=%v) re-launches itself with\n  %q\nexpected\n  %q", user, opts.Tmux.border, opts.Margin != defaultMargin(), opts.BorderShape != tui.BorderUndefined, got, want)
+		}
+	})
 }
